@@ -5,7 +5,7 @@
 # exit 0 held; 1 VIOLATION (re-executed through the plain replay path first); 2 inconclusive
 set -u
 ID="$1"
-V=/verif
+V="$(cd "$(dirname "$0")/.." && pwd)"
 case "$ID" in
   C01) TARGET=range_ast_c01; RUNS=${VERIF_FUZZ_RUNS:-400000} ;;
   C05|C17) TARGET=version_text_c05_c17; RUNS=${VERIF_FUZZ_RUNS:-800000} ;;
